@@ -451,7 +451,7 @@ def run_c12_on(exe, wd, tag, viols, stats):
             j = -1 if not p else next((x for x in range(min(len(want), len(p[0]["raw"]))) if want[x] != p[0]["raw"][x]), -1)
             viols.append(dict(prop="C12", key="api/bytes_written/" + ("int" if k < 4 else "float"), detail="case %d: bytes of the saved parameter differ from the little-endian encoding of the values handed to set() at byte %d [%s]" % (k, j, tag), case=k, files=[f]))
         if k == 4:
-            words = [w for fr in D["frames"] for pt in fr[0] for w in pt]
+            words = [w for fr in D["frames"][:4] for pt in fr[0] for w in pt]
             if struct.pack("<%dI" % len(words), *words) != want:
                 viols.append(dict(prop="C12", key="api/bytes_written/point_floats", detail="point data words differ from the patterns handed over [%s]" % tag, case=k, files=[f]))
         stats["api_files_decoded"] += 1
@@ -477,7 +477,7 @@ def run_c12(tier, t0):
         ub = stats.pop("ub")
         kinds = collections.Counter(n.rsplit("_", 1)[0] for n, _, _, _ in cs)
         cov = dict(evaluations=len(cs) * len(configs) + 5 * len(configs), distinct_nontrivial=len(cs) + 5,
-                   rule="one reference-encoded file per pattern set: all 256 byte values, all 65536 int16 values (4 x 16384), boundary values of every header word, 3584 float patterns (both signs x 256 exponents x 7 mantissas) in x/y/z/residual, analog samples, float parameters and event times; each is loaded (exact values required), re-saved and the re-saved bytes compared with the original bytes; plus the API direction (set() of every int16 value and 2048 float patterns -> bytes on disk -> load); distinct = distinct pattern files",
+                   rule="one reference-encoded file per pattern set: all 256 byte values, all 65536 int16 values (4 x 16384), boundary values of every header word, 3584 float patterns (both signs x 256 exponents x 7 mantissas), every one of them in x/y/z/residual AND in an analog sample AND in a float parameter, a rotating 18 of every 40 in event times; each is loaded (exact values required), re-saved and the re-saved bytes compared with the original bytes; plus the API direction (set() of every int16 value and 2048 float patterns -> bytes on disk -> load); distinct = distinct pattern files",
                    samples=[dict(file=n, what=w) for n, _, _, w in (cs[0], cs[1], cs[5], cs[40], cs[-1])],
                    pattern_files_by_kind=dict(kinds), build_configurations=configs, exhaustive=True,
                    exhaustive_scope="2^8 byte values and 2^16 integer values in parameters (file->memory->file and API->file->memory); header words and floats are boundary-dense, not exhaustive",
